@@ -257,7 +257,9 @@ func (c03) Gen(r *core.Rand, tier string) interface{} {
 				k = 600
 			}
 			op = C03Op{Op: which, Data: c03Data(r, k)}
-			if prev := map[bool]core.Hex{true: cur.Ext, false: cur.Priv}[which == "ext"]; len(prev) >= 2 && r.Chance(1, 4) {
+			if r.Chance(1, 12) {
+				op = C03Op{Op: which + "_self", V: r.Bool()}
+			} else if prev := map[bool]core.Hex{true: cur.Ext, false: cur.Priv}[which == "ext"]; len(prev) >= 2 && r.Chance(1, 4) {
 				// a value that is related to the one in place: the old one with a short tail appended
 				// (descriptors added one at a time), a prefix of it, the old one moved by a byte
 				var d core.Hex
@@ -469,6 +471,21 @@ func (c03) Exec(script interface{}, c *core.Ctx) {
 	}
 	for i, op := range s.Ops {
 		c.SetStep(i)
+		selfView := false
+		if op.Op == "priv_self" || op.Op == "ext_self" {
+			// the caller takes the view the getter hands out, possibly edits it in place, and
+			// hands it back to the setter of the same packet: an ordinary set of that value
+			cur := m.Priv
+			if op.Op == "ext_self" {
+				cur = m.Ext
+			}
+			d := append(core.Hex(nil), cur...)
+			if op.V && len(d) > 0 {
+				d[0] ^= 0x5A
+			}
+			op = C03Op{Op: op.Op[:len(op.Op)-5], Data: d, V: op.V}
+			selfView = true
+		}
 		if op.Op == "pcr_echo" || op.Op == "opcr_echo" {
 			// the caller reads the timestamp and writes the same value back: afterwards the
 			// field is the ISO encoding of that value, whatever the six bytes were before
@@ -587,10 +604,40 @@ func (c03) Exec(script interface{}, c *core.Ctx) {
 				cerr = af.SetOPCR(op.U)
 			case "splice":
 				cerr = af.SetSpliceCountdown(byte(op.U))
-			case "priv":
-				cerr = af.SetTransportPrivateData(append([]byte(nil), op.Data...))
-			case "ext":
-				cerr = af.SetAdaptationFieldExtension(append([]byte(nil), op.Data...))
+			case "priv", "ext":
+				// the value is the front of a longer buffer of the caller's: the bytes behind it
+				// are the caller's own and stay what they are
+				backing := append(append([]byte(nil), op.Data...), 0xC3, 0x3C, 0xA5, 0x5A, 0x96, 0x69, 0x0F, 0xF0)
+				arg := backing[:len(op.Data)]
+				if selfView {
+					var view []byte
+					var gerr error
+					if op.Op == "priv" {
+						view, gerr = af.TransportPrivateData()
+					} else {
+						view, gerr = af.AdaptationFieldExtension()
+					}
+					if gerr == nil {
+						if len(view) == len(op.Data)+1 {
+							view = view[1:] // this getter hands out the length byte too
+						}
+						if len(view) == len(op.Data) {
+							if op.V && len(view) > 0 {
+								view[0] ^= 0x5A
+							}
+							arg = view
+							c.Probe("value_set_from_the_getters_own_view")
+						}
+					}
+				}
+				if op.Op == "priv" {
+					cerr = af.SetTransportPrivateData(arg)
+				} else {
+					cerr = af.SetAdaptationFieldExtension(arg)
+				}
+				if !bytes.Equal(backing[len(op.Data):], []byte{0xC3, 0x3C, 0xA5, 0x5A, 0x96, 0x69, 0x0F, 0xF0}) {
+					srcChanged = "the bytes behind the value in the caller's buffer were overwritten"
+				}
 			case "copy_self":
 				c.Probe("copy_from_same_packet")
 				own, _ := pkt.AdaptationField()
@@ -622,7 +669,7 @@ func (c03) Exec(script interface{}, c *core.Ctx) {
 		}
 		if srcChanged != "" {
 			// the packet the field is copied FROM is only read, whether the copy is honoured or not
-			c.Fail("source_untouched", "copy_changed_the_packet_it_copies_from", srcChanged, "188 bytes unchanged")
+			c.Fail("source_untouched", "call_changed_memory_it_only_reads:"+op.Op, srcChanged, "unchanged")
 			return
 		}
 		opName := op.Op
